@@ -81,11 +81,23 @@ PLAIN = ['foo', 'bar', 'baz', 'the', 'quick', 'brown', 'fox', 'lorem', 'ipsum', 
          '1.2.', 'A.', 'été', 'naïve', 'אבג', 'مرحبا', '日本', '\U0001F600', 'a-b', 'semi;colon', 'q?', '\U00020BB7\u91ce', '\U00029E3D', 'x\U000E0101', '\U0010FFFD',
          '"q"', "it's", 'a<b', 'x&y', '&amp;', ']]>', '100%', "'", '"']
 
+# characters a conversion has no business touching, but that string methods, regex classes, normalisation, case mapping, line
+# splitting or XML serialisation treat specially: one in twenty-five words carries one
+ODD_CHARS = ['\u200b', '\u2060', '\ufeff', '\u00ad', '\u200d', '\u200e', '\u202e',              # invisible / format
+             '\u212a', '\u2126', '\u212b', 'e\u0301', '\ufb01', '\uf900', '\u1e9b\u0323',          # not NFC / compatibility forms
+             '\u2028', '\u2029', '\u0085', '\u00a0', '\u3000', '\u2009',                          # separators and spaces that are not the grammar's
+             '\u0130', '\u00df', '\u01c5', '\u03c2',                                            # case-mapping specials
+             '~', '^', '$', '%', '&', '<', '>', '"', "'", '`', '=', '+', '#', '@', '!', '?', ';', ':', ',', ']]>',   # ASCII punctuation without syntax
+             '\U0001F1FF\U0001F1E6', '\u0663', '\u00b2', '\u2167']                                 # flags, digits of other scripts, numerals
+
 class Words:
     """Supplies payload words; with unique=True every word is a fresh distinct token (for C03)."""
     def __init__(self, rng, unique=False):
         self.rng, self.unique, self.k = rng, unique, 0
     def word(self):
+        if self.rng.random() < 0.04:
+            o = self.rng.choice(ODD_CHARS)
+            return self.rng.choice(['x' + o + 'y', 'x' + o, o + 'y'])
         if self.unique:
             self.k += 1
             base = self.rng.choice(['w', 'tok', 'ש', 'م', 'é', '\U0001F600z', 'q', '\U00020BB7z', '\U000E0101z'])
